@@ -1032,6 +1032,14 @@ static Member *struct_designator(Token **rest, Token *tok, Type *ty) {
   error_tok(tok, "struct has no such member");
 }
 
+// Unnamed bit-fields do not take part in initialization (C11 6.7.9p9):
+// the positional cursor passes over them.
+static Member *skip_unnamed(Member *mem) {
+  while (mem && mem->is_bitfield && !mem->name)
+    mem = mem->next;
+  return mem;
+}
+
 // designation = ("[" const-expr "]" | "." ident)* "="? initializer
 static void designation(Token **rest, Token *tok, Initializer *init) {
   if (equal(tok, "[")) {
@@ -1168,7 +1176,7 @@ static void array_initializer2(Token **rest, Token *tok, Initializer *init, int 
 static void struct_initializer1(Token **rest, Token *tok, Initializer *init) {
   tok = skip(tok, "{");
 
-  Member *mem = init->ty->members;
+  Member *mem = skip_unnamed(init->ty->members);
   bool first = true;
 
   while (!consume_end(rest, tok)) {
@@ -1179,13 +1187,13 @@ static void struct_initializer1(Token **rest, Token *tok, Initializer *init) {
     if (equal(tok, ".")) {
       mem = struct_designator(&tok, tok, init->ty);
       designation(&tok, tok, init->children[mem->idx]);
-      mem = mem->next;
+      mem = skip_unnamed(mem->next);
       continue;
     }
 
     if (mem) {
       initializer2(&tok, tok, init->children[mem->idx]);
-      mem = mem->next;
+      mem = skip_unnamed(mem->next);
     } else {
       tok = skip_excess_element(tok);
     }
@@ -1198,7 +1206,7 @@ static void struct_initializer2(Token **rest, Token *tok, Initializer *init, Mem
   // first member) the next initializer is preceded by a comma.
   bool first = (mem == init->ty->members);
 
-  for (; mem && !is_end(tok); mem = mem->next) {
+  for (mem = skip_unnamed(mem); mem && !is_end(tok); mem = skip_unnamed(mem->next)) {
     Token *start = tok;
 
     if (!first)
@@ -1235,14 +1243,15 @@ static void union_initializer(Token **rest, Token *tok, Initializer *init) {
     return;
   }
 
-  init->mem = init->ty->members;
+  init->mem = skip_unnamed(init->ty->members);
+  int idx = init->mem ? init->mem->idx : 0;
 
   if (equal(tok, "{")) {
-    initializer2(&tok, tok->next, init->children[0]);
+    initializer2(&tok, tok->next, init->children[idx]);
     consume(&tok, tok, ",");
     *rest = skip(tok, "}");
   } else {
-    initializer2(rest, tok, init->children[0]);
+    initializer2(rest, tok, init->children[idx]);
   }
 }
 
